@@ -14,6 +14,8 @@ import (
 	"cedarverif/harness/internal/bufpipe"
 	"cedarverif/harness/internal/refcodec"
 
+	"github.com/PelicanPlatform/classad/classad"
+
 	"github.com/bbockelm/cedar/client"
 	"github.com/bbockelm/cedar/message"
 	"github.com/bbockelm/cedar/security"
@@ -157,7 +159,7 @@ func runClientCache(c *Ctx) error {
 		var ops, real []string
 		log := func(o, r string) { ops = append(ops, o); real = append(real, r) }
 		log("reset", "ok")
-		ref := map[triple]string{}  // reference map kept by the spec rules
+		ref := map[triple]string{}   // reference map kept by the spec rules
 		expired := map[string]bool{} // sids expired on the client
 		authOf := map[string]bool{}  // was the session established with authentication
 		var sids []string
@@ -386,6 +388,7 @@ func runClientCache(c *Ctx) error {
 		cases = append(cases, Case{Label: fmt.Sprintf("clientcache#%d", i), Ops: ops, Real: real})
 	}
 	cases = append(cases, ccRetryCases(c)...)
+	ccKeylessClient(c)
 	security.ClearSessionCache()
 	return diffBatch(c, "sc", cases, nil)
 }
@@ -558,4 +561,111 @@ func canonList(l string) string {
 	}
 	sort.Strings(o)
 	return strings.Join(o, ",")
+}
+
+// ccKeylessClient: the CLIENT side of "a session without a key is never resumed". The client's cache
+// holds a session whose key material is absent / empty / not an AES-GCM key (a session established
+// with no common cipher, or stored that way by the application); the peer is a server that answers
+// ANY resumption request with AUTHORIZED and keys nothing (a rogue or broken server). Whether the
+// session is reached through its command route or named explicitly (SecurityConfig.SessionID), the
+// client must not report a successful handshake on a plaintext stream: a resumed connection is
+// protected by the session key or it does not exist. Implementation observables only (no model op).
+func ccKeylessClient(c *Ctx) {
+	type variant struct {
+		name string
+		ki   *security.KeyInfo
+	}
+	key32 := keyBytes(9)
+	variants := []variant{
+		{"nil", nil},
+		{"data-nil/AES", &security.KeyInfo{Data: nil, Protocol: "AES"}},
+		{"data-empty/AES", &security.KeyInfo{Data: []byte{}, Protocol: "AES"}},
+		{"data/3DES", &security.KeyInfo{Data: key32, Protocol: "3DES"}},
+		{"data/BLOWFISH", &security.KeyInfo{Data: key32, Protocol: "BLOWFISH"}},
+		{"data/empty-protocol", &security.KeyInfo{Data: key32, Protocol: ""}},
+	}
+	for _, v := range variants {
+		for _, explicit := range []bool{false, true} {
+			for _, encLevel := range []security.SecurityLevel{security.SecurityOptional, security.SecurityRequired} {
+				cache := security.NewSessionCache()
+				pol := classad.New()
+				_ = pol.Set("Authenticated", true)
+				_ = pol.Set("User", "alice@pool")
+				_ = pol.Set("AuthMethods", "CLAIMTOBE")
+				if v.ki != nil {
+					_ = pol.Set("CryptoMethods", v.ki.Protocol)
+				}
+				const sid = "srv:1:1:7"
+				cache.Store(security.NewSessionEntry(sid, "srvA", v.ki, pol, time.Now().Add(time.Hour), 30*time.Minute, ""))
+				cache.MapCommand("", "srvA", "60007", sid)
+				ca, cb := bufpipe.Pair("10.0.0.1:1111", "10.0.0.2:9618")
+				ctx, cancel := context.WithTimeout(context.Background(), ccHonestBound)
+				var wg sync.WaitGroup
+				var sawResume bool
+				wg.Add(1)
+				go func() {
+					defer wg.Done()
+					// the rogue server: read the first message; if it is a resumption request say AUTHORIZED
+					sst := stream.NewStream(cb)
+					m := message.NewMessageFromStream(sst)
+					if _, err := m.GetInt(ctx); err != nil {
+						cb.Close()
+						return
+					}
+					ad, err := m.GetClassAd(ctx)
+					if err != nil {
+						cb.Close()
+						return
+					}
+					if us, _ := ad.EvaluateAttrString("UseSession"); us != "YES" {
+						cb.Close() // a full handshake: this server cannot do one
+						return
+					}
+					sawResume = true
+					r := classad.New()
+					_ = r.Set("ReturnCode", "AUTHORIZED")
+					_ = r.Set("Sid", sid)
+					out := message.NewMessageForStream(sst)
+					_ = out.PutClassAd(ctx, r)
+					_ = out.FinishMessage(ctx)
+					// keep the connection until the client is done
+					buf := make([]byte, 64)
+					_, _ = cb.Read(buf)
+				}()
+				cst := stream.NewStream(ca)
+				cc := &security.SecurityConfig{AuthMethods: toMethods([]string{"CLAIMTOBE"}), Authentication: security.SecurityPreferred,
+					CryptoMethods: toCiphers([]string{"AES"}), Encryption: encLevel, Integrity: security.SecurityOptional,
+					Command: 60007, SessionCache: cache, PeerName: "srvA"}
+				if explicit {
+					cc.SessionID = sid
+				}
+				a := security.NewAuthenticator(cc, cst)
+				neg, err := a.ClientHandshake(ctx)
+				encrypted := cst.IsEncrypted()
+				ca.Close()
+				wg.Wait()
+				cancel()
+				path := "command-route"
+				if explicit {
+					path = "explicit-SessionID"
+				}
+				c.Count("keyless-client:" + path + ":" + v.name)
+				c.Distinct(fmt.Sprintf("keyless-client|%s|%s|%s", path, v.name, encLevel), true)
+				ops := []string{fmt.Sprintf("# client cache: session %s for srvA with KeyInfo %s, Authenticated=true; route (no tag, srvA, 60007) -> it", sid, v.name),
+					fmt.Sprintf("# ClientHandshake via %s, Encryption=%s, against a server that answers every resumption request AUTHORIZED and installs no key", path, encLevel)}
+				if err == nil && !encrypted {
+					obs := fmt.Sprintf("handshake returned success, stream plaintext, resumption request sent=%v", sawResume)
+					if neg != nil {
+						obs += fmt.Sprintf(", Authentication=%v User=%q Encryption=%v", neg.Authentication, neg.User, neg.Encryption)
+					}
+					c.Violate(Violation{Property: "C06", Key: "C06:client-resumed-keyless-session:" + path, What: "the client resumed a cached session that carries no usable key: the handshake reports success (with the cached identity) on a stream that no key protects",
+						Ops: ops, Expected: "no resumption: a SessionResumptionError, or a full handshake", Observed: obs})
+					if encLevel == security.SecurityRequired {
+						c.Violate(Violation{Property: "C03", Key: "C03:encryption-required-plaintext-after-resume:" + path, What: "a client whose policy marks encryption REQUIRED returned success from a (resumed) handshake on a plaintext stream",
+							Ops: ops, Expected: "error", Observed: obs})
+					}
+				}
+			}
+		}
+	}
 }
